@@ -21,6 +21,11 @@ theorem unresolvable_never_decodes (o : Oracle) (chunk : Bool) {e : Name} (h : c
     decodeNow o chunk e x = .ok none := by
   unfold decodeNow; simp [h]
 
+/-- T1 obligation: the names for which the crate's own decode helper resolves a codec are exactly the
+    names the model treats as reportable (a name gaining a codec without an alias entry, or the helper
+    resolving names differently from the label table, breaks this) -/
+theorem helper_resolves_reportable : (Gen.helperResolves == reportableNow) = true := by decide +kernel
+
 /-- **C18 (canonical)**: every supported name canonicalises to itself … -/
 theorem C18_canonical {n : Name} (h : n ∈ Gen.supported) : ianaNow n = some n := ianaNow_supported h
 
